@@ -593,6 +593,39 @@ theorem svc_followup_request_is_covered (sops : List SOp) (k dl : Nat)
       have : reqTimeout = 30000 := rfl
       omega
 
+/-- "again and again", at the service level, with a bound: while a request is outstanding the runtime
+timer of the owned check timer is never set for an instant more than one period (1 s) ahead — `exp` is
+written by `AddTimer` and by the tail of `Do` only, both `now + 1 s`, and time only moves forward — so
+once a full period has passed and the expiry goroutine has had its turn the timer's object sits in the
+queue of the loop, whatever the history before (it is this bound the spec monitor evaluates on the real
+service: a request outstanding, a second passes, no tick ⇒ `C14/check-timer-stopped`). -/
+theorem svc_check_timer_due_within_period (sops : List SOp) (hp : (svcRun sops).1.pending ≠ []) :
+    ((svcRun sops).1.t.tm (svcRun sops).1.own).exp ≤ (svcRun sops).1.t.now + checkPeriod ∧
+    (svcRun sops).1.own ∈
+      (svcRunFrom (svcRun sops).1 [] [.advance checkPeriod, .expire (svcRun sops).1.own]).1.t.queue := by
+  obtain ⟨hn0, _, _, oc, hor⟩ := svc_request_keeps_check_timer sops hp
+  have hdue := due_run sops hn0
+  obtain ⟨hs, _⟩ := sinv_run sops
+  refine ⟨hdue, ?_⟩
+  generalize (svcRun sops).1 = v at *
+  simp only [svcRunFrom, svcStep, opsOf, runFrom, step]
+  unfold expire
+  rcases hor with ha | hq
+  · have hd' : (v.t.tm v.own).exp ≤ v.t.now + checkPeriod := hdue
+    simp [State.tick, ha, hd', oc, hs.running, State.push, State.setTm]
+  · split
+    · split
+      · simp_all [State.tick]
+      · split
+        · simp_all [State.tick]
+        · simp [State.tick, State.push, State.setTm]
+    · simpa [State.tick] using hq
+
+/-- non-vacuity, and the bound is reached: right after the request the timer is exactly one period away -/
+example : (svcRun [SOp.req 1]).1.pending ≠ [] ∧
+    ((svcRun [SOp.req 1]).1.t.tm 2).exp = (svcRun [SOp.req 1]).1.t.now + checkPeriod ∧
+    (svcRunFrom (svcRun [SOp.req 1]).1 [] [.advance checkPeriod, .expire 2]).1.t.queue = [2] := by decide
+
 /-- a request with a retrying callback times out at +30 s: the tick after the deadline replaces
 it by the follow-up `1001`, the service goes on owning timer 2 -/
 example : let sops := [SOp.reqAgain 1, .advance 30001, .expire 2]
